@@ -1675,3 +1675,90 @@ R("deletedirty-copy-idiom", ["C16"],
 	delete(j.addressToJournalIndex, addr)""", """	copy(j.dirties[idx:], j.dirties[idx+1:])
 	j.dirties = j.dirties[:len(j.dirties)-1]
 	delete(j.addressToJournalIndex, addr)"""))
+
+# ------------------------------------------------------------------ C17
+STR = "vm/state_transition.go"
+KEEP = "data/balance/keeper.go"
+M("usedgas-before-refund", "C17", "C17.gas",
+  (STR, """	st.refundGas(RefundQuotientFrankenstein)
+
+	result := &ExecutionResult{
+		UsedGas:    st.gasUsed(),
+		Err:        vmerr,
+		ReturnData: ret,
+	}""", """	result := &ExecutionResult{
+		UsedGas:    st.gasUsed(),
+		Err:        vmerr,
+		ReturnData: ret,
+	}
+	st.refundGas(RefundQuotientFrankenstein)"""))
+M("refund-at-evm-price", "C17", "C17.gas",
+  (STR, """	remaining := new(big.Int).Mul(new(big.Int).SetUint64(st.gas), st.gasPrice)""", """	remaining := new(big.Int).Mul(new(big.Int).SetUint64(st.gas), st.evm.TxContext.GasPrice)"""))
+M("refund-to-coinbase", "C17", "C17.gas",
+  (STR, """	st.state.AddBalance(st.msg.From(), remaining)""", """	st.state.AddBalance(st.evm.Context.Coinbase, remaining)"""))
+M("olvm-failed-exec-reports-gas-limit", "C17", "C17.gas",
+  ("action/olvm/handler.go", """		return ResponseSuccess(action.GetEvent(tags, HandlerName), int64(execResult.UsedGas))
+	} else {""", """		return ResponseSuccess(action.GetEvent(tags, HandlerName), rawTx.Fee.Gas)
+	} else {"""))
+M("contract-fee-charged-on-wrong-fee", "C17", "C17.gas",
+  (BASE, """	case WrongFee:
+		return false, Response{Log: ErrInvalidVmExecution.Marshal(), GasWanted: signedTx.Fee.Gas}
+	}""", """	}"""))
+M("nonce-set-from-message", "C17", "C17.nonce",
+  (STR, """		nextNonce := st.state.GetNonce(msg.From()) + 1""", """		nextNonce := msg.Nonce() + 1"""))
+M("setaccount-keeps-coins-in-record", "C17", "C17.ledger",
+  (KEEP, """	coins := account.Coins
+	account.Coins = Coin{}
+""", """	coins := account.Coins
+"""))
+M("getaccount-trusts-record-balance", "C17", "C17.ledger",
+  (KEEP, """	ea.Coins = coin
+	return ea, nil
+}
+
+func (nak *NesterAccountKeeper) GetVersionedAccount""", """	if ea.Coins.Amount == nil {
+		ea.Coins = coin
+	}
+	return ea, nil
+}
+
+func (nak *NesterAccountKeeper) GetVersionedAccount"""))
+M("revert-fix-removeaccount-balance", "C17", "C17.ledger",
+  (KEEP, """	if account.Coins.Amount != nil {
+		_ = nak.balances.SetBalance(account.Address, account.Coins.Currency.NewCoinFromInt(0))
+	}
+""", ""))
+M("apply-returns-early-on-consensus-error", "C17", "C17.cache",
+  ("vm/evm.go", """	executionResult, err := ApplyMessage(etx.NewEVM(), etx, etx.gaspool)
+""", """	executionResult, err := ApplyMessage(etx.NewEVM(), etx, etx.gaspool)
+	if err != nil {
+		return nil, err
+	}
+"""))
+M("finalise-keeps-clean-objects", "C17", "C17.cache",
+  (SDB, """		s.stateObjects = make([]stateEntry, 0)
+		s.addressToObjectIndex = make(map[ethcmn.Address]int)
+		s.stateObjectsDirty = make(map[ethcmn.Address]struct{})
+		// invalidate journal""", """		kept := make([]stateEntry, 0)
+		index := make(map[ethcmn.Address]int)
+		for _, e := range s.stateObjects {
+			if _, dirty := s.journal.addressToJournalIndex[e.address]; !dirty && !e.stateObject.deleted {
+				index[e.address] = len(kept)
+				kept = append(kept, e)
+			}
+		}
+		s.stateObjects = kept
+		s.addressToObjectIndex = index
+		s.stateObjectsDirty = make(map[ethcmn.Address]struct{})
+		// invalidate journal"""))
+R("transition-used-gas-local", ["C17"],
+  (STR, """	result := &ExecutionResult{
+		UsedGas:    st.gasUsed(),""", """	result := &ExecutionResult{}
+	result.UsedGas = st.gasUsed()
+	result = &ExecutionResult{
+		UsedGas:    result.UsedGas,"""))
+R("removeaccount-zero-via-local", ["C17"],
+  (KEEP, """		_ = nak.balances.SetBalance(account.Address, account.Coins.Currency.NewCoinFromInt(0))""", """		zero := account.Coins.Currency.NewCoinFromInt(0)
+		if err := nak.balances.SetBalance(account.Address, zero); err != nil {
+			nak.logger.Error("failed to clear balance", err)
+		}"""))
